@@ -51,14 +51,14 @@ func AlpineGrammar(t *rapid.T, l string) string {
 		}
 		sb.WriteString("_" + name)
 		if Chance(t, fmt.Sprintf("%sn%d", l, i), 2, 3) {
-			sb.WriteString(SmallNum(t, fmt.Sprintf("%sv%d", l, i)))
+			sb.WriteString(Counter(t, fmt.Sprintf("%sv%d", l, i)))
 		}
 	}
 	if Chance(t, l+"H", 1, 10) {
 		sb.WriteString("~" + Pick(t, l+"h", "abc123", "0", "deadbeef", "abc124", "f"))
 	}
 	if Chance(t, l+"R", 1, 3) {
-		sb.WriteString("-r" + SmallNum(t, l+"r"))
+		sb.WriteString("-r" + Counter(t, l+"r"))
 	}
 	return sb.String()
 }
@@ -113,11 +113,11 @@ func AlpmPkgver(t *rapid.T, l string) string {
 func alpmV(t *rapid.T, l string) string {
 	var sb strings.Builder
 	if Chance(t, l+"E", 1, 6) {
-		sb.WriteString(Pick(t, l+"e", "0", "1", "2", "10") + ":")
+		sb.WriteString(Pick(t, l+"e", "0", "1", "2", "10", "010", "2147483647", "4294967296", "4294967297") + ":")
 	}
 	sb.WriteString(AlpmPkgver(t, l))
 	if Chance(t, l+"R", 1, 2) {
-		sb.WriteString("-" + SmallNum(t, l+"r"))
+		sb.WriteString("-" + Counter(t, l+"r"))
 	}
 	return sb.String()
 }
@@ -350,7 +350,7 @@ func DebianRun(t *rapid.T, l string, maxPieces int, hyphen bool) string {
 func debianV(t *rapid.T, l string) string {
 	var sb strings.Builder
 	if Chance(t, l+"E", 1, 6) {
-		sb.WriteString(Pick(t, l+"e", "0", "1", "2", "10") + ":")
+		sb.WriteString(Pick(t, l+"e", "0", "1", "2", "10", "010", "2147483647", "4294967296", "4294967297") + ":")
 	}
 	sb.WriteString(SmallNum(t, l+"first"))
 	hasRev := Chance(t, l+"R", 1, 3)
@@ -431,11 +431,11 @@ func gentooV(t *rapid.T, l string) string {
 	if Chance(t, l+"S", 1, 2) {
 		sb.WriteString("_" + Pick(t, l+"s", "alpha", "beta", "pre", "rc", "p"))
 		if Chance(t, l+"sn", 2, 3) {
-			sb.WriteString(SmallNum(t, l+"sv"))
+			sb.WriteString(Counter(t, l+"sv"))
 		}
 	}
 	if Chance(t, l+"R", 1, 3) {
-		sb.WriteString("-r" + SmallNum(t, l+"r"))
+		sb.WriteString("-r" + Counter(t, l+"r"))
 	}
 	return sb.String()
 }
@@ -543,18 +543,18 @@ func mavenV(t *rapid.T, l string) string {
 func pypiV(t *rapid.T, l string) string {
 	var sb strings.Builder
 	if Chance(t, l+"E", 1, 8) {
-		sb.WriteString(Pick(t, l+"e", "0", "1", "2") + "!")
+		sb.WriteString(Pick(t, l+"e", "0", "1", "2", "02", "4294967296", "4294967297") + "!")
 	}
 	sb.WriteString(Dotted(t, l+"n", 1, 5, atoiNum))
 	dot := func(lbl string) string { return Pick(t, lbl, "", ".") }
 	if Chance(t, l+"PRE", 1, 3) {
-		sb.WriteString(dot(l+"pd") + Pick(t, l+"pw", "a", "b", "rc", "alpha", "beta", "c") + SmallNum(t, l+"pn"))
+		sb.WriteString(dot(l+"pd") + Pick(t, l+"pw", "a", "b", "rc", "alpha", "beta", "c") + Counter(t, l+"pn"))
 	}
 	if Chance(t, l+"POST", 1, 4) {
-		sb.WriteString(dot(l+"od") + Pick(t, l+"ow", "post", "rev", "r") + SmallNum(t, l+"on"))
+		sb.WriteString(dot(l+"od") + Pick(t, l+"ow", "post", "rev", "r") + Counter(t, l+"on"))
 	}
 	if Chance(t, l+"DEV", 1, 4) {
-		sb.WriteString(dot(l+"dd") + "dev" + SmallNum(t, l+"dn"))
+		sb.WriteString(dot(l+"dd") + "dev" + Counter(t, l+"dn"))
 	}
 	if Chance(t, l+"LOC", 1, 6) {
 		sb.WriteString("+" + Pick(t, l+"loc", "abc", "1", "abc.1", "1.abc", "2", "ubuntu-1", "a_b", "ABC", "01", "abc.10", "abc.9"))
@@ -583,7 +583,7 @@ func RpmRun(t *rapid.T, l string, maxPieces int) string {
 func rpmV(t *rapid.T, l string) string {
 	var sb strings.Builder
 	if Chance(t, l+"E", 1, 6) {
-		sb.WriteString(Pick(t, l+"e", "0", "1", "2", "10") + ":")
+		sb.WriteString(Pick(t, l+"e", "0", "1", "2", "10", "010", "2147483647", "4294967296", "4294967297") + ":")
 	}
 	sb.WriteString(SmallNum(t, l+"first"))
 	sb.WriteString(RpmRun(t, l+"v", 6))
